@@ -70,6 +70,23 @@ fn main() {
         let links: Vec<(String, String)> = tcv.get("links").and_then(|x| x.as_array()).map(|a| a.iter().map(|p| (p[0].as_str().unwrap().to_string(), p[1].as_str().unwrap().to_string())).collect()).unwrap_or_default();
         let weak = format!("{}|{:?}", s(tcv, "marker"), links);
         let res: Result<String, String> = rt.block_on(async {
+            if let Some(id) = job.get("toolchain_id").and_then(|x| x.as_str()) {
+                // a crafted toolchain identifier: alloc_job carries it to the scheduler and the build server as it is; the real client would refuse
+                // to upload an archive it does not have, so submit_toolchain is sent raw (the server refuses the upload but the job becomes ready)
+                let tc = sccache::dist::Toolchain { archive_id: id.to_string() };
+                let alloc = client.do_alloc_job(tc.clone()).await.map_err(|e| format!("alloc: {:#}", e))?;
+                let job_alloc = match alloc { AllocJobResult::Success { job_alloc, .. } => job_alloc, AllocJobResult::Fail { msg } => return Ok(format!("\"result\":\"alloc_fail\",\"detail\":{}", jstr(&msg))) };
+                let raw = reqwest::Client::builder().danger_accept_invalid_certs(true).build().map_err(|e| format!("raw client: {}", e))?;
+                let url = sccache::dist::http::urls::server_submit_toolchain(job_alloc.server_id, job_alloc.job_id);
+                let sub = match raw.post(url).bearer_auth(job_alloc.auth.clone()).body(b"this is not a toolchain".to_vec()).send().await { Ok(r) => format!("HTTP {}", r.status()), Err(e) => format!("{}", e) };
+                let cmd = CompileCommand { executable: "/bin/jobtool".into(), arguments: sl(job, "args"), env_vars: vec![], cwd: s(job, "cwd") };
+                let r = client.do_run_job(job_alloc, cmd, sl(job, "outputs"), Box::new(Inputs { members: vec![] })).await;
+                return Ok(match r {
+                    Ok((RunJobResult::Complete(_), _)) => format!("\"result\":\"complete\",\"detail\":{}", jstr(&format!("crafted id; submit_toolchain: {}", sub))),
+                    Ok((RunJobResult::JobNotFound, _)) => format!("\"result\":\"job_not_found\",\"detail\":{}", jstr(&sub)),
+                    Err(e) => format!("\"result\":\"error\",\"detail\":{}", jstr(&format!("submit_toolchain: {}; run_job: {:#}", sub, e))),
+                });
+            }
             let (tc, _) = client.put_toolchain(std::path::PathBuf::from("/bin/jobtool"), weak, Box::new(Tc { tool: tool.clone(), marker: s(tcv, "marker"), links })).await.map_err(|e| format!("put_toolchain: {:#}", e))?;
             let alloc = client.do_alloc_job(tc.clone()).await.map_err(|e| format!("alloc: {:#}", e))?;
             let (job_alloc, need) = match alloc { AllocJobResult::Success { job_alloc, need_toolchain } => (job_alloc, need_toolchain), AllocJobResult::Fail { msg } => return Ok(format!("\"result\":\"alloc_fail\",\"detail\":{}", jstr(&msg))) };
